@@ -18,13 +18,13 @@ func (c09) Budget(tier string) (int, int) {
 	return 80000, 20
 }
 func (c09) Rule() string {
-	return "fault H-error@k: the simulator-owned handler returns a chosen error value (pointer sentinel, comparable struct value, io.EOF) (or one of 13 error values obtained from the library itself - errUnexpectedEOF, errInvalidArray, errNoValidToken, errPOutOfRange ... - as a handler that passes a reader's error on would) at callback k with an accompanying offset from {0, exact end, the hostile catalogue incl. values near the integer limits}; earlier callbacks decline/consume/run nested traversals from the tape. For containers of <= 32 members every k is enumerated (one scenario per k), larger ones are sampled. Also nested: the error is raised inside a traversal started from a callback and must come back through every level. A run is non-trivial when an error was injected; distinct = distinct hashes of (operation, document class, decisions, k, error kind, offset class)."
+	return "fault H-error@k: the simulator-owned handler (as a HandlerFunc adapter or as a struct implementing the interface) returns a chosen error value (pointer sentinel, comparable struct value, io.EOF, slice-/map-/func-typed errors whose dynamic type is not comparable, a typed nil pointer inside a non-nil interface) (or one of 13 error values obtained from the library itself - errUnexpectedEOF, errInvalidArray, errNoValidToken, errPOutOfRange ... - as a handler that passes a reader's error on would) at callback k with an accompanying offset from {0, exact end, the hostile catalogue incl. values near the integer limits}; earlier callbacks decline/consume/run nested traversals from the tape. For containers of <= 32 members every k is enumerated (one scenario per k), larger ones are sampled. Also nested: the error is raised inside a traversal started from a callback and must come back through every level. A run is non-trivial when an error was injected; distinct = distinct hashes of (operation, document class, decisions, k, error kind, offset class)."
 }
 func (c09) Assumptions() []string {
 	return []string{"error identity is Go interface equality (==) between the returned error and the injected value", "input documents are sampled"}
 }
 func (c09) Required(tier string) []string {
-	return []string{"H-error", "H-nested", "error-is-a-library-error-value", "error-at-scalar-member", "error-at-string-member", "error-at-container-member", "error-offset-near-maxint", "error-in-nested-traversal"}
+	return []string{"H-error", "H-nested", "error-is-a-library-error-value", "error-of-uncomparable-type", "error-is-a-typed-nil-pointer", "struct-handler", "func-adapter-handler", "error-at-scalar-member", "error-at-string-member", "error-at-container-member", "error-offset-near-maxint", "error-in-nested-traversal"}
 }
 
 func (c09) Gen(r *Rand, sc *Scenario, tier string) {
@@ -48,7 +48,7 @@ func (c09) Gen(r *Rand, sc *Scenario, tier string) {
 		ek := r.Intn(nErrKinds)
 		off := r.Pick(2, 2, 8)
 		if off == 2 {
-			off = 2 + r.Intn(24)
+			off = 2 + r.Intn(nHostile)
 		}
 		return mkDec(dError, ek+nErrKinds*off)
 	}
@@ -65,7 +65,7 @@ func (c09) Gen(r *Rand, sc *Scenario, tier string) {
 				}
 			}
 			t = append(t, errDec())
-			ops = append(ops, Op{Kind: kindName(obj), Doc: 0, Tape: t})
+			ops = append(ops, Op{Kind: kindName(obj), Doc: 0, Tape: t, B: r.Intn(2)})
 		}
 	} else {
 		k := r.Intn(n + 2)
@@ -75,7 +75,7 @@ func (c09) Gen(r *Rand, sc *Scenario, tier string) {
 		for i := 0; i < 4; i++ {
 			t = append(t, errDec())
 		}
-		ops = append(ops, Op{Kind: kindName(obj), Doc: 0, Tape: t})
+		ops = append(ops, Op{Kind: kindName(obj), Doc: 0, Tape: t, B: r.Intn(2)})
 	}
 	sc.Tasks = [][]Op{ops}
 }
@@ -84,6 +84,7 @@ func (c09) Exec(sc *Scenario, st *Stats) *Violation {
 	for oi, op := range sc.Tasks[0] {
 		doc := sc.Docs[op.Doc].Bytes()
 		e := newHEnv(st, NewTape(op.Tape))
+		e.structH = op.B%2 == 1
 		st.ev(op.Kind)
 		st.ev(sc.Docs[op.Doc].Class)
 		out := e.traverse(travKind(op.Kind), doc)
@@ -117,8 +118,18 @@ func (c09) Exec(sc *Scenario, st *Stats) *Violation {
 			}
 		}
 		st.probe(errMemberProbe(doc, out.CBs))
-		if e.thrown >= 3 {
+		switch {
+		case e.thrown >= 19:
+			st.probe("error-is-a-typed-nil-pointer")
+		case e.thrown >= 16:
+			st.probe("error-of-uncomparable-type")
+		case e.thrown >= 3:
 			st.probe("error-is-a-library-error-value")
+		}
+		if e.structH {
+			st.probe("struct-handler")
+		} else {
+			st.probe("func-adapter-handler")
 		}
 		st.evi("erridx", e.thrown)
 		if out.OK {
